@@ -6,7 +6,7 @@ set -e
 S=${1:-}   # optional suffix for a second, independent environment (e.g. "2")
 rm -rf /tmp/kv$S; mkdir -p /tmp/kv$S
 git -C /verif archive HEAD | tar -x -C /tmp/kv$S
-sed -i 's#path = "/repo"#path = "/tmp/krepo$S"#' /tmp/kv$S/harness/pvmon/Cargo.toml
+sed -i "s#path = \"/repo\"#path = \"/tmp/krepo$S\"#" /tmp/kv$S/harness/pvmon/Cargo.toml
 if [ -d /tmp/krepo$S ]; then git -C /repo worktree remove --force /tmp/krepo$S || rm -rf /tmp/krepo$S; fi
 git -C /repo worktree prune
 git -C /repo worktree add -q --detach /tmp/krepo$S HEAD
